@@ -170,6 +170,18 @@ def slice_swap(i, fr, st, pc, a, t, fn, r):
     return _ret(i, st, pc, UNIT)
 
 
+def slice_get(i, fr, st, pc, a, t, fn, r):
+    p, idx = a
+    if not isinstance(idx, W):
+        raise Undecided("slice::get with a non-integer index")
+    if idx.val is None:
+        raise Undecided("symbolic slice::get index")
+    n = i.slice_len(st, p)
+    if idx.val >= n:
+        return _ret(i, st, pc, NONE)
+    return _ret(i, st, pc, some(i.elem_ptr(p, idx.val)))
+
+
 def clone_from_slice(i, fr, st, pc, a, t, fn, r):
     dst, src = a
     nd, ns = i.slice_len(st, dst), i.slice_len(st, src)
@@ -239,6 +251,59 @@ def vec_from_elem(i, fr, st, pc, a, t, fn, r):
     cell = new_cell()
     st.mem[cell] = Arr([v] * n.val)
     return _ret(i, st, pc, Ptr(cell, (), (0, n.val), "vec"))
+
+
+def vec_new(i, fr, st, pc, a, t, fn, r):
+    cell = new_cell()
+    st.mem[cell] = Arr([])
+    return _ret(i, st, pc, Ptr(cell, (), (0, 0), "vec"))
+
+
+def _vec_set(i, st, vp, elems):
+    """vp: pointer to the place holding the Vec handle"""
+    h = i.read_ptr(st, vp)
+    st.mem[h.cell] = Arr(elems)
+    i.write_ptr(st, vp, Ptr(h.cell, (), (0, len(elems)), "vec"))
+
+
+def vec_push(i, fr, st, pc, a, t, fn, r):
+    h = i.read_ptr(st, a[0])
+    if not isinstance(h, Ptr):
+        raise Undecided("push on %r" % (h,))
+    _vec_set(i, st, a[0], list(i.slice_elems(st, h)) + [a[1]])
+    return _ret(i, st, pc, UNIT)
+
+
+def vec_extend(i, fr, st, pc, a, t, fn, r):
+    h = i.read_ptr(st, a[0])
+    if not isinstance(h, Ptr):
+        raise Undecided("extend on %r" % (h,))
+    items = []
+    it = a[1]
+    if isinstance(it, Ptr):
+        src = i.read_ptr(st, it) if it.sl is None else it
+        if isinstance(src, Ptr):
+            items = list(i.slice_elems(st, src))
+        else:
+            raise Undecided("extend from %r" % (src,))
+    else:
+        while True:
+            it, x = iter_next(i, st, it)
+            if x is None:
+                break
+            items.append(load_items(i, st, x))
+    _vec_set(i, st, a[0], list(i.slice_elems(st, h)) + items)
+    return _ret(i, st, pc, UNIT)
+
+
+def vec_len(i, fr, st, pc, a, t, fn, r):
+    h = i.read_ptr(st, a[0])
+    return _ret(i, st, pc, usize(i.slice_len(st, h)))
+
+
+def vec_is_empty(i, fr, st, pc, a, t, fn, r):
+    h = i.read_ptr(st, a[0]) if a[0].sl is None else a[0]
+    return _ret(i, st, pc, wbool(i.slice_len(st, h) == 0))
 
 
 def vec_into_boxed_slice(i, fr, st, pc, a, t, fn, r):
@@ -461,6 +526,7 @@ TABLE = {
     "std::iter::Iterator::zip": it_zip,
     "std::iter::Iterator::cmp": iterator_cmp,
     "core::slice::<impl [T]>::swap": slice_swap,
+    "core::slice::<impl [T]>::get": slice_get,
     "core::slice::<impl [T]>::clone_from_slice": clone_from_slice,
     "<u64 as std::ops::BitAndAssign<&u64>>::bitand_assign": op_assign("BitAnd"),
     "<u64 as std::ops::BitOrAssign<&u64>>::bitor_assign": op_assign("BitOr"),
@@ -474,6 +540,12 @@ TABLE = {
     "core::num::<impl u64>::count_ones": count_ones,
     "core::num::<impl usize>::trailing_zeros": trailing_zeros,
     "std::vec::from_elem": vec_from_elem,
+    "std::vec::Vec::<T>::new": vec_new,
+    "std::vec::Vec::<T, A>::push": vec_push,
+    "<std::vec::Vec<T, A> as std::iter::Extend<&'a T>>::extend": vec_extend,
+    "std::vec::Vec::<T, A>::len": vec_len,
+    "std::vec::Vec::<T, A>::is_empty": vec_is_empty,
+    "core::slice::<impl [T]>::is_empty": vec_is_empty,
     "std::vec::Vec::<T, A>::into_boxed_slice": vec_into_boxed_slice,
     "<std::boxed::Box<[T], A> as std::clone::Clone>::clone": box_clone,
     "std::clone::impls::<impl std::clone::Clone for usize>::clone": clone_copy,
